@@ -627,7 +627,7 @@ fn single_arg(description: &'static str) -> impl Clone + Fn(Span) -> IResult<Spa
                     .send_report();
             })
             .map(|e| e.unwrap_or(Expr::Error)),
-            tag(")"),
+            tag(")").preceded_by(multispace0),
             |qc, r| {
                 qc.report_error_for("unterminated function call")
                     .with_code_range(r, "unterminated function call")
@@ -792,12 +792,17 @@ fn low_filter(input: Span) -> IResult<Span, Option<Search>> {
     alt((
         filter_not,
         filter_atom,
-        expect_delimited(tag("("), high_filter, tag(")"), |qc, r| {
-            qc.report_error_for("unterminated parenthesized filter")
-                .with_code_range(r, "unterminated parenthesized filter")
-                .with_resolution("Insert a right parenthesis to terminate this filter")
-                .send_report()
-        }),
+        expect_delimited(
+            tag("(").terminated(multispace0),
+            high_filter,
+            tag(")").preceded_by(multispace0),
+            |qc, r| {
+                qc.report_error_for("unterminated parenthesized filter")
+                    .with_code_range(r, "unterminated parenthesized filter")
+                    .with_resolution("Insert a right parenthesis to terminate this filter")
+                    .send_report()
+            },
+        ),
     ))(input)
 }
 
@@ -934,12 +939,17 @@ fn atomic(input: Span) -> IResult<Span, Expr> {
     let quoted_string_value = quoted_string.map(data::Value::Str);
     let duration_value = duration.map(data::Value::Duration);
     let value = alt((quoted_string_value, duration_value, num, bool_lit, null)).map(Expr::Value);
-    let parens = expect_delimited(tag("("), expr, tag(")"), |qc, r| {
-        qc.report_error_for("unterminated parenthesized expression")
-            .with_code_range(r, "unterminated parenthesized expression")
-            .with_resolution("Insert a right parenthesis to terminate this expression")
-            .send_report()
-    });
+    let parens = expect_delimited(
+        tag("("),
+        expr,
+        tag(")").preceded_by(multispace0),
+        |qc, r| {
+            qc.report_error_for("unterminated parenthesized expression")
+                .with_code_range(r, "unterminated parenthesized expression")
+                .with_resolution("Insert a right parenthesis to terminate this expression")
+                .send_report()
+        },
+    );
 
     alt((if_op, fcall, value, column_ref, parens)).parse(input)
 }
@@ -1270,7 +1280,10 @@ fn req_quoted_string(input: Span) -> IResult<Span, String> {
 }
 
 fn var_list(input: Span) -> IResult<Span, Vec<String>> {
-    separated_list1(tag(","), ident.preceded_by(multispace0))(input)
+    separated_list1(
+        tag(",").preceded_by(multispace0),
+        ident.preceded_by(multispace0),
+    )(input)
 }
 
 fn parse(input: Span) -> IResult<Span, Positioned<InlineOperator>> {
